@@ -59,8 +59,22 @@ class UFNorm(object):
 
     # ------------------------------------------------------------------
     def _valid(self, claim):
-        """True iff assumptions (substituted) + facts => claim is proved"""
+        """True iff assumptions (substituted) + facts => claim is proved (staged: simplifier, identity without
+        hypotheses, then with assumptions and facts)"""
         t0 = time.time()
+        sc = z3.simplify(claim)
+        if z3.is_true(sc):
+            return True
+        if z3.is_false(sc):
+            return False
+        s0 = z3.Solver()
+        s0.set("timeout", max(500, self.timeout_ms // 10))
+        s0.add(z3.Not(claim))
+        self.stats["arg_queries"] += 1
+        r0 = str(s0.check())
+        if r0 == "unsat":
+            self.stats["solver_s"] += time.time() - t0
+            return True
         s = z3.Solver()
         s.set("timeout", self.timeout_ms)
         s.add(*self._sub_all(self.assumptions))
